@@ -639,25 +639,34 @@ func (u *Unit) materialize(st *State, v Val) Val {
 	// make sure no "?interior" placeholder leaks into SMT
 	for i, t := range v.Terms {
 		if t == "?interior" {
+			// snapshot alias: a fresh object holding the current value of the interior location.
+			// A call that completes within the instruction copies the object back afterwards
+			// (execCall); an alias that lives longer is not kept in sync (recorded abstraction)
+			if v.Ptr != nil && v.T != nil && derefType(v.T) != nil && len(v.Terms) == 1 {
+				cur := u.load(st, Val{T: v.T, Terms: []Term{"?interior"}, Ptr: v.Ptr}, token.NoPos)
+				n := u.newRef(st, "iptr")
+				st.assume(fmt.Sprintf("(= (reftype %s) %d)", n, u.refTag(v.T)))
+				nv := v
+				nv.Terms = append([]Term(nil), v.Terms...)
+				nv.Terms[i] = n
+				np := &Ptr{Kind: PObj, Ref: n, Root: derefType(v.T)}
+				locs, _ := u.locsOf(np)
+				if len(locs) == len(cur.Terms) {
+					for k, l := range locs {
+						h := u.heapGet(st, l.comp, l.arrSort)
+						u.heapSetAt(st, l.comp, l.arrSort, fmt.Sprintf("(store %s %s %s)", h, n, cur.Terms[k]), n)
+					}
+				}
+				nv.Ptr = np
+				u.abstraction(fmt.Sprintf("%s: interior pointer escaped; modelled as a snapshot alias", u.name))
+				return nv
+			}
 			n := u.fresh(st, "iptr", "Int")
 			st.assume(fmt.Sprintf("(and (< 0 %s) (<= %s %s))", n, n, st.alloc))
 			nv := v
 			nv.Terms = append([]Term(nil), v.Terms...)
 			nv.Terms[i] = n
-			// snapshot alias: the fresh reference points to a cell holding the current value of
-			// the interior location (writes through either side afterwards are not reflected)
-			if v.Ptr != nil && v.T != nil && derefType(v.T) != nil && len(v.Terms) == 1 {
-				cur := u.load(st, Val{T: v.T, Terms: []Term{"?interior"}, Ptr: v.Ptr}, token.NoPos)
-				np := &Ptr{Kind: PObj, Ref: n, Root: derefType(v.T)}
-				locs, _ := u.locsOf(np)
-				if len(locs) == len(cur.Terms) {
-					for k, l := range locs {
-						st.assume(sEq(u.readLoc(st, l), cur.Terms[k]))
-					}
-				}
-				nv.Ptr = np
-				u.abstraction(fmt.Sprintf("%s: interior pointer escaped; modelled as a snapshot alias", u.name))
-			} else {
+			{
 				u.abstraction(fmt.Sprintf("%s: interior pointer escaped; the escaped alias is not tracked", u.name))
 			}
 			return nv
